@@ -1,1 +1,352 @@
-// verification harness (compiled into ntp-proto/src/ipfilter.rs under cfg(all(test, pendulum_project_ntpd_rs_verif)))
+// Harness for spec/IpFilter.tla (C31): every subnet set enumerated by TLC over the 8-bit universe is embedded into
+// real IPv4 / IPv6 space below a common prefix of k nibbles (masks shifted by 4k, random host bits, random order,
+// duplicates, IPv4-mapped spellings) and all 256 addresses are looked up through the real IpFilter; the bitmap must
+// equal the specification's Members(S).  Subnet string classes are concretised into strings for IpSubnet::from_str.
+// Compiled into ntp-proto/src/ipfilter.rs under cfg(all(test, pendulum_project_ntpd_rs_verif)).
+#![allow(clippy::all, dead_code)]
+
+use super::IpFilter;
+use crate::server::IpSubnet;
+use serde_json::{Value, json};
+use std::net::{IpAddr, Ipv4Addr, Ipv6Addr};
+use std::str::FromStr;
+
+#[path = "/verif/harness/common/util.rs"]
+mod util;
+use util::{Rng, i, s};
+
+fn rand128(rng: &mut Rng) -> u128 {
+    ((rng.next() as u128) << 64) | rng.next() as u128
+}
+
+/// low `n` bits set
+fn low(n: u32) -> u128 {
+    if n >= 128 { u128::MAX } else { (1u128 << n) - 1 }
+}
+
+/// An embedding of the 8-bit universe into a `width`-bit address family below a common prefix of `k` nibbles.
+struct Embed {
+    width: u32,
+    k: u32,
+    common: u128, // the 4k common bits, already shifted into place
+}
+
+impl Embed {
+    fn new(width: u32, k: u32, rng: &mut Rng) -> Self {
+        let common = if k == 0 { 0 } else { (rand128(rng) & low(4 * k)) << (width - 4 * k) };
+        Embed { width, k, common }
+    }
+    fn tail_bits(&self) -> u32 {
+        self.width - 4 * self.k - 8
+    }
+    /// universe address `a` with random bits below it
+    fn addr(&self, a: u32, rng: &mut Rng) -> u128 {
+        self.common | ((a as u128) << self.tail_bits()) | (rand128(rng) & low(self.tail_bits()))
+    }
+    /// (address with random host bits, mask) of the prefix [val, len]
+    fn subnet(&self, val: u32, len: u32, rng: &mut Rng) -> (u128, u32) {
+        let mask = 4 * self.k + len;
+        let host = self.width - mask;
+        let net = self.common | ((val as u128) << self.tail_bits());
+        let net = if host >= 128 { 0 } else { (net >> host) << host };
+        (net | (rand128(rng) & low(host)), mask)
+    }
+    /// an address outside the embedded universe: one bit of the common prefix flipped
+    fn outside(&self, rng: &mut Rng) -> Option<u128> {
+        if self.k == 0 {
+            return None;
+        }
+        let bit = self.width - 1 - rng.below(4 * self.k as u64) as u32;
+        Some((self.common | (rand128(rng) & low(self.width - 4 * self.k))) ^ (1u128 << bit))
+    }
+}
+
+fn v4(x: u128) -> Ipv4Addr {
+    Ipv4Addr::from(x as u32)
+}
+fn v6(x: u128) -> Ipv6Addr {
+    Ipv6Addr::from(x)
+}
+fn is_plain_v6(x: u128) -> bool {
+    matches!(IpAddr::V6(v6(x)).to_canonical(), IpAddr::V6(_))
+}
+
+fn subnet_string(width: u32, addr: u128, mask: u32, mapped: bool) -> String {
+    if width == 32 {
+        if mapped { format!("::ffff:{}/{}", v4(addr), mask + 96) } else { format!("{}/{}", v4(addr), mask) }
+    } else {
+        format!("{}/{}", v6(addr), mask)
+    }
+}
+
+struct SetCase {
+    prefixes: Vec<(u32, u32)>,
+    members: [bool; 256],
+}
+
+fn build_subnets(case: &SetCase, e: &Embed, mapped_spelling: bool, rng: &mut Rng, strings: &mut Vec<String>) -> Result<Vec<IpSubnet>, String> {
+    let mut out = vec![];
+    let mut list = case.prefixes.clone();
+    // duplicates (with other host bits) and a random order do not change the set
+    if !list.is_empty() && rng.chance(1, 3) {
+        let d = *rng.pick(&list);
+        list.push(d);
+    }
+    for n in (1..list.len()).rev() {
+        let j = rng.below(n as u64 + 1) as usize;
+        list.swap(n, j);
+    }
+    for (val, len) in list {
+        let (addr, mask) = e.subnet(val, len, rng);
+        let text = subnet_string(e.width, addr, mask, mapped_spelling && rng.chance(1, 2));
+        match IpSubnet::from_str(&text) {
+            Ok(sn) => out.push(sn),
+            Err(err) => return Err(format!("subnet string {text} rejected: {err:?}")),
+        }
+        strings.push(text);
+    }
+    Ok(out)
+}
+
+/// Looks all 256 universe addresses up; returns the first address whose answer differs from the specification.
+fn probe(filter: &IpFilter, case: &SetCase, e: &Embed, spell_mapped: bool, rng: &mut Rng, lookups: &mut u64) -> Option<Value> {
+    for a in 0..256u32 {
+        let mut x = e.addr(a, rng);
+        let ip = if e.width == 32 {
+            if spell_mapped && rng.chance(1, 2) { IpAddr::V6(v4(x).to_ipv6_mapped()) } else { IpAddr::V4(v4(x)) }
+        } else {
+            while !is_plain_v6(x) {
+                x = e.addr(a, rng);
+            }
+            IpAddr::V6(v6(x))
+        };
+        *lookups += 1;
+        let got = filter.is_in(ip);
+        if got != case.members[a as usize] {
+            return Some(json!({"addr": ip.to_string(), "universe_addr": a, "expected": case.members[a as usize], "observed": got}));
+        }
+    }
+    None
+}
+
+fn probe_outside(filter: &IpFilter, e: &Embed, rng: &mut Rng, lookups: &mut u64) -> Option<Value> {
+    for _ in 0..4 {
+        let Some(x) = e.outside(rng) else { return None };
+        let ip = if e.width == 32 { IpAddr::V4(v4(x)) } else if is_plain_v6(x) { IpAddr::V6(v6(x)) } else { continue };
+        *lookups += 1;
+        if filter.is_in(ip) {
+            return Some(json!({"addr": ip.to_string(), "expected": false, "observed": true, "outside": true}));
+        }
+    }
+    None
+}
+
+fn run_set(id: u64, act: &Value, out: &Value, seed: u64) -> Value {
+    let mut rng = Rng::new(seed ^ id.wrapping_mul(0x9E3779B1));
+    let prefixes: Vec<(u32, u32)> = act["s"].as_array().unwrap().iter().map(|p| (i(p, "val") as u32, i(p, "len") as u32)).collect();
+    let mut members = [false; 256];
+    for m in out["members"].as_array().unwrap() {
+        members[m.as_u64().unwrap() as usize] = true;
+    }
+    let case = SetCase { prefixes, members };
+    let mut fields: Vec<String> = vec![];
+    let mut detail = json!(null);
+    let mut lookups = 0u64;
+    let k4a = (id % 7) as u32;
+    let k4b = ((id / 7 + 3) % 7) as u32;
+    let k6a = (id % 31) as u32;
+    let k6b = ((id * 5 + 11) % 31) as u32;
+    // (v4 depth, v6 depth, mapped spellings): combined filter, v4 only, v6 only
+    let plans: [(Option<u32>, Option<u32>, bool); 3] = [(Some(k4a), Some(k6a), false), (Some(k4b), None, true), (None, Some(k6b), false)];
+    for (p4, p6, mapped) in plans {
+        let e4 = p4.map(|k| Embed::new(32, k, &mut rng));
+        let e6 = p6.map(|k| Embed::new(128, k, &mut rng));
+        let mut strings = vec![];
+        let r = util::catch(|| -> Result<Option<(String, Value)>, String> {
+            let mut subnets = vec![];
+            if let Some(e) = &e4 {
+                subnets.extend(build_subnets(&case, e, mapped, &mut rng, &mut strings)?);
+            }
+            if let Some(e) = &e6 {
+                subnets.extend(build_subnets(&case, e, false, &mut rng, &mut strings)?);
+            }
+            let filter = IpFilter::new(&subnets);
+            for e in [&e4, &e6].into_iter().flatten() {
+                if let Some(d) = probe(&filter, &case, e, mapped, &mut rng, &mut lookups) {
+                    return Ok(Some(("bitmap".into(), d)));
+                }
+                if let Some(d) = probe_outside(&filter, e, &mut rng, &mut lookups) {
+                    return Ok(Some(("outside".into(), d)));
+                }
+            }
+            // the other family never matches a filter that has no subnet of it
+            if e4.is_none() {
+                lookups += 1;
+                if filter.is_in(IpAddr::V4(v4(rand128(&mut rng)))) {
+                    return Ok(Some(("outside".into(), json!({"note": "IPv4 address matched a filter without IPv4 subnets"}))));
+                }
+            }
+            if e6.is_none() {
+                let x = rand128(&mut rng);
+                if is_plain_v6(x) {
+                    lookups += 1;
+                    if filter.is_in(IpAddr::V6(v6(x))) {
+                        return Ok(Some(("outside".into(), json!({"note": "IPv6 address matched a filter without IPv6 subnets"}))));
+                    }
+                }
+            }
+            Ok(None)
+        });
+        match r {
+            Err(p) => {
+                fields.push("panic".into());
+                detail = json!({"panic": p, "subnets": strings});
+            }
+            Ok(Err(e)) => {
+                fields.push("subnet_string".into());
+                detail = json!({"error": e});
+            }
+            Ok(Ok(Some((f, d)))) => {
+                fields.push(f);
+                detail = json!({"subnets": strings, "lookup": d, "depth_v4": p4, "depth_v6": p6});
+            }
+            Ok(Ok(None)) => {}
+        }
+        if !fields.is_empty() {
+            break;
+        }
+    }
+    json!({"id": id, "fields": fields, "detail": detail, "lookups": lookups})
+}
+
+fn mask_text(mask: i64, rng: &mut Rng) -> String {
+    match mask {
+        1000 => String::new(),
+        1001 => rng.pick(&["abc", "x", "3 2", "0x10", "1.5", " 8", "8 ", "/8", "2e1", "--1"]).to_string(),
+        m => m.to_string(),
+    }
+}
+
+fn run_string(id: u64, act: &Value, out: &Value, seed: u64) -> Value {
+    let mut rng = Rng::new(seed ^ id.wrapping_mul(0x85EBCA6B));
+    let c = &act["c"];
+    let family = s(c, "family");
+    let syntax = s(c, "syntax");
+    let mask = i(c, "mask");
+    let mut fields: Vec<String> = vec![];
+    let mut detail = vec![];
+    let mut evals = 0;
+    for rep in 0..6 {
+        let a4 = match rep {
+            0 => Ipv4Addr::new(10, 1, 2, 3),
+            1 => Ipv4Addr::new(0, 0, 0, 0),
+            2 => Ipv4Addr::new(255, 255, 255, 255),
+            _ => Ipv4Addr::from(rng.next() as u32),
+        };
+        let (addr_text, parsed): (String, IpAddr) = match family.as_str() {
+            "v4" => (a4.to_string(), IpAddr::V4(a4)),
+            "mapped" => {
+                let t = if rep % 2 == 0 {
+                    format!("::ffff:{a4}")
+                } else {
+                    let o = a4.octets();
+                    format!("::ffff:{:x}:{:x}", u16::from_be_bytes([o[0], o[1]]), u16::from_be_bytes([o[2], o[3]]))
+                };
+                (t, IpAddr::V4(a4))
+            }
+            _ => {
+                let a6 = match rep {
+                    0 => Ipv6Addr::from_str("2001:db8::1").unwrap(),
+                    1 => Ipv6Addr::UNSPECIFIED,
+                    2 => Ipv6Addr::from(u128::MAX),
+                    _ => loop {
+                        let x = rand128(&mut rng);
+                        if is_plain_v6(x) {
+                            break v6(x);
+                        }
+                    },
+                };
+                (a6.to_string(), IpAddr::V6(a6))
+            }
+        };
+        let bad = ["bla", "1.2.3", "1.2.3.256", "1.2.3.4.5", ":::", "2001:db8::g", "", "1.2.3.4 ", "::ffff:1.2.3.256", "[::1]", " ::1"];
+        let text = match syntax.as_str() {
+            "ok" => format!("{addr_text}/{}", mask_text(mask, &mut rng)),
+            "noslash" => {
+                if rep % 2 == 0 {
+                    addr_text.clone()
+                } else {
+                    format!("{addr_text} {}", mask_text(mask, &mut rng))
+                }
+            }
+            _ => format!("{}/{}", bad[(rep + id as usize) % bad.len()], mask_text(mask, &mut rng)),
+        };
+        evals += 1;
+        let r = util::catch(|| IpSubnet::from_str(&text));
+        let exp_ok = out["ok"].as_bool().unwrap();
+        match r {
+            Err(p) => {
+                fields.push("panic".into());
+                detail.push(json!({"text": text, "panic": p}));
+            }
+            Ok(res) => {
+                if res.is_ok() != exp_ok {
+                    fields.push("ok".into());
+                    detail.push(json!({"text": text, "expected_ok": exp_ok, "observed": format!("{res:?}")}));
+                } else if let Ok(sn) = res {
+                    let fam = if sn.addr.is_ipv4() { "v4" } else { "v6" };
+                    if fam != out["family"].as_str().unwrap() {
+                        fields.push("family".into());
+                    }
+                    if sn.mask as i64 != out["mask"].as_i64().unwrap() {
+                        fields.push("mask".into());
+                    }
+                    if sn.addr != parsed {
+                        fields.push("addr".into());
+                    }
+                    if !fields.is_empty() {
+                        detail.push(json!({"text": text, "observed": format!("{sn:?}")}));
+                    }
+                }
+            }
+        }
+        if !fields.is_empty() {
+            break;
+        }
+    }
+    fields.sort();
+    fields.dedup();
+    json!({"id": id, "fields": fields, "detail": detail, "lookups": evals})
+}
+
+fn replay(job: &Value) {
+    let seed = job["seed"].as_u64().unwrap_or(0);
+    let mut out = util::NdjsonOut::create(job["output"].as_str().unwrap());
+    use std::io::BufRead;
+    let f = std::fs::File::open(job["input"].as_str().unwrap()).expect("input");
+    for line in std::io::BufReader::new(f).lines() {
+        let line = line.unwrap();
+        if line.trim().is_empty() {
+            continue;
+        }
+        let v: Value = serde_json::from_str(&line).unwrap();
+        let id = v["id"].as_u64().unwrap();
+        let r = if s(&v["act"], "kind") == "set" { run_set(id, &v["act"], &v["out"], seed) } else { run_string(id, &v["act"], &v["out"], seed) };
+        // only failing cases and a running total are reported (130 000 cases per run)
+        if !r["fields"].as_array().unwrap().is_empty() {
+            out.put(&r);
+        } else {
+            out.put(&json!({"id": id, "fields": [], "lookups": r["lookups"]}));
+        }
+    }
+    out.finish();
+}
+
+#[test]
+fn verif_ipfilter() {
+    let job = util::job();
+    match s(&job, "mode").as_str() {
+        "replay" => replay(&job),
+        other => panic!("unknown mode {other}"),
+    }
+}
